@@ -3,6 +3,7 @@
 package main
 
 import (
+	"encoding/json"
 	"flag"
 	"fmt"
 	"os"
@@ -21,6 +22,7 @@ func main() {
 	verif := flag.String("verif", "/verif", "verif root (evidence, known findings)")
 	only := flag.String("rule", "", "run only rules whose name contains this string")
 	list := flag.Bool("list", false, "list properties with rules")
+	dumpAnchors := flag.String("dump-anchors", "", "run every rule set and write the named anchors with their signatures to this file")
 	knownPath := flag.String("known", "", "known findings file (default <verif>/known_findings.json)")
 	child := flag.Bool("child", false, "internal: run as a sub-analysis of the thorough tier")
 	config := flag.String("config", "", "build configuration os[/arch] (default: host, linux/amd64)")
@@ -29,6 +31,30 @@ func main() {
 		for _, id := range rules.IDs() {
 			fmt.Println(id)
 		}
+		return
+	}
+	if *dumpAnchors != "" {
+		abs, _ := filepath.Abs(*repo)
+		p, err := core.Load(abs, *config)
+		if err != nil {
+			fmt.Println(err)
+			os.Exit(2)
+		}
+		for _, id := range rules.IDs() {
+			if !strings.HasPrefix(id, "C") {
+				continue
+			}
+			func() {
+				defer func() { recover() }()
+				rules.Registry[id](&rules.Ctx{P: p, R: core.NewReport(id, "quick", 0), Tier: "quick", Verif: *verif})
+			}()
+		}
+		b, _ := json.MarshalIndent(p.AnchorLog, "", " ")
+		if err := os.WriteFile(*dumpAnchors, append(b, '\n'), 0o644); err != nil {
+			fmt.Println(err)
+			os.Exit(2)
+		}
+		fmt.Printf("%d anchors written\n", len(p.AnchorLog))
 		return
 	}
 	run, ok := rules.Registry[*prop]
@@ -69,6 +95,10 @@ func main() {
 		}()
 		run(&rules.Ctx{P: p, R: rep, Tier: *tier, Only: *only, Verif: *verif})
 	}()
+	if len(p.Renamed) > 0 {
+		rep.Extra["anchors_resolved_by_signature"] = p.Renamed
+		fmt.Println("note: anchors resolved through their recorded signature (the name is gone):", strings.Join(p.Renamed, "; "))
+	}
 	if *only != "" {
 		// partial run: do not overwrite evidence with a partial picture
 		code := 0
